@@ -65,7 +65,7 @@ class FakeSymbolicSys:
         return self.dep[self.names.index(key)]
 
 
-SUBST = ["A", "B", "C", "D", "E"]
+SUBST = ["C", "A", "E", "B", "D"]     # deliberately neither alphabetical nor the order of first appearance in the reactions
 
 
 def layouts():
@@ -211,7 +211,18 @@ def _(v):
     v.prove("cstr_rhs", SP.conj([v.eq(odesys.exprs[0], -a * rate + p["feedratio"] * (p["fc_A"] - y["A"])),
                                  v.eq(odesys.exprs[1], b * rate + p["feedratio"] * (p["fc_B"] - y["B"])),
                                  v.eq(odesys.exprs[2], p["feedratio"] * (p["fc_S"] - y["S"]))]))
-    v.prove("linear_invariants_are_the_composition_vectors", odesys.linear_invariants == [[0, 0, 0], [2, 1, 0], [0, 0, 1]] and odesys.linear_invariant_names == ["0", "1", "8"])
+    # with a feed nothing is conserved: no vector may be reported as an invariant of this right-hand side
+    v.prove("no_linear_invariants_reported_with_a_feed", odesys.linear_invariants is None and odesys.linear_invariant_names is None)
+    # without feed: every reported vector w satisfies  w . rhs == rate * (w . net stoichiometry)  -- zero exactly when the reaction conserves that key
+    ode0, extra0 = v.call(get_odesys, rsys, SymbolicSys=FakeSymbolicSys)
+    y0 = dict(zip(ode0.names, ode0.dep))
+    rate0 = k * SP.spow(y0["A"], a)
+    inv = ode0.linear_invariants
+    v.prove("one_vector_per_composition_key", inv is not None and len(inv) == 3 and all(len(row) == 3 for row in inv) and ode0.linear_invariant_names == ["0", "1", "8"])
+    comp = {"A": {1: 2}, "B": {1: 1, 0: 0}, "S": {8: 1}}
+    for row, key in zip(inv, (0, 1, 8)):
+        lhs = sum(row[j] * ode0.exprs[j] for j in range(3))
+        v.prove("vector_of_key_%d_is_conserved_iff_the_reaction_conserves_it" % key, v.eq(lhs, rate0 * (b * comp["B"].get(key, 0) - a * comp["A"].get(key, 0))))
 
 
 @harness("C04", "get_odesys.time_is_reserved", functions=[ODE + ":get_odesys.<locals>.dydt"], kind="shape-bounded", samples=0)
@@ -393,3 +404,54 @@ def _(v):
             v.prove_identity(label + ".rate_1", per_rxn[1], k2 * si_value(ku) * reg_t * y["B"])
             v.prove_identity(label + ".rate_2", per_rxn[2], r[2])
             v.prove_identity(label + ".rate_3", per_rxn[3], k3 * si_value(ku) * reg_t * y["D"])
+
+
+@harness("C04", "get_odesys.names_are_substance_keys", functions=[ODE + ":get_odesys", ODE + ":get_odesys.<locals>.dydt"], kind="shape-bounded", samples=0, max_paths=300)
+def _(v):
+    """'dependent-variable names matching substance KEYS': a system whose keys differ from the Substance.name attributes (here: the names are a
+    permutation of the keys, the worst case because nothing raises)"""
+    from chempy.kinetics.ode import get_odesys
+    from chempy.chemistry import Reaction, Substance
+    from chempy.reactionsystem import ReactionSystem
+    k0, k1 = v.real("k0", lo=0, hi=9), v.real("k1", lo=0, hi=9)
+    n = v.int("nu", lo=1, hi=3)
+    subs = OrderedDict([("A", Substance("B")), ("B", Substance("C")), ("C", Substance("A"))])
+    rsys = ReactionSystem([Reaction({"A": n}, {"B": 1}, k0, checks=()), Reaction({"B": 1, "C": 1}, {"A": 2}, k1, checks=())], subs, checks=())
+    odesys, extra = v.call(get_odesys, rsys, SymbolicSys=FakeSymbolicSys)
+    v.prove("names_are_the_keys_in_substance_order", list(odesys.names) == ["A", "B", "C"])
+    y = dict(zip(["A", "B", "C"], odesys.dep))
+    r0 = k0 * SP.spow(y["A"], n)
+    r1 = k1 * y["B"] * y["C"]
+    for e, (s, want) in zip(odesys.exprs, (("A", -n * r0 + 2 * r1), ("B", r0 - r1), ("C", -r1))):
+        v.prove("equation_%d_is_that_of_key_%s" % (list("ABC").index(s), s), v.eq(e, want))
+
+
+@harness("C04", "get_odesys.rebuilt_after_changing_a_rate_constant", functions=[ODE + ":get_odesys", "chempy.chemistry:Reaction.rate_expr"], kind="shape-bounded", samples=0, max_paths=300)
+def _(v):
+    """the builders read the reaction system as it IS when they are called: a second build after re-assigning a rate constant (number or name)
+    uses the new one"""
+    from chempy.kinetics.ode import get_odesys, _create_odesys
+    import z3
+    lays = layouts()["two_shared"]
+    rsys, ds, ks = build(v, lays)
+    v.call(get_odesys, rsys, SymbolicSys=FakeSymbolicSys)
+    knew = v.real("k_new", lo=0, hi=9)
+    rsys.rxns[0].param = knew
+    odesys, extra = v.call(get_odesys, rsys, SymbolicSys=FakeSymbolicSys)
+    conc = dict(zip(odesys.names, odesys.dep))
+    want = spec_rhs(ds, [knew, ks[1]], conc)
+    v.prove("second_build_uses_the_new_number", SP.conj([v.eq(e, want[s]) for e, s in zip(odesys.exprs, SUBST)]))
+    rsys2, ds2, ks2 = build(v, lays, named=True)
+    v.call(get_odesys, rsys2, include_params=False, SymbolicSys=FakeSymbolicSys)
+    rsys2.rxns[1].param = "renamed"
+    o2, x2 = v.call(get_odesys, rsys2, include_params=False, SymbolicSys=FakeSymbolicSys)
+    v.prove("second_build_uses_the_new_name", list(o2.param_names) == ["kk0", "renamed"])
+    psyms = OrderedDict((k, Sym(z3.Real("P_" + k))) for k in ("kk0", "renamed"))
+    ssyms = OrderedDict((k, Sym(z3.Real("Y_" + k))) for k in SUBST)
+    t = Sym(z3.Real("T_time"))
+    v.assume(t != 0)
+    for other in list(ssyms.values()) + list(psyms.values()):
+        v.assume(other != t)
+    o3, x3 = v.call(_create_odesys, rsys2, substance_symbols=ssyms, parameter_symbols=psyms, backend=FakeBackend(), SymbolicSys=CapturingSys, time_symbol=t)
+    want3 = spec_rhs(ds2, [psyms["kk0"], psyms["renamed"]], ssyms)
+    v.prove("alternative_builder_uses_the_new_name", SP.conj([v.eq(e, want3[s]) for e, s in zip(o3.exprs, SUBST)]))
